@@ -1,4 +1,5 @@
 """Structural postconditions on rule emissions over the catalogue (hv.catalog)."""
+from hv import core  # noqa: E402
 import ast
 import multiprocessing as mp
 import traceback
@@ -111,7 +112,7 @@ def run(chk, cname, checker, names=None, prefix=None, backend="structural", kind
     if len(tasks) > 16 and chk.jobs > 1:
         import gc; gc.collect(); gc.freeze()  # forked workers then touch (copy) far fewer pages
         with mp.get_context("fork").Pool(min(chk.jobs, 16)) as pool:
-            results = pool.map(_work, tasks, chunksize=max(1, len(tasks) // 128))
+            results = core.pmap(pool, _work, tasks, chunksize=max(1, len(tasks) // 128))
     else:
         results = [_work(t) for t in tasks]
     for ename, sv, status, detail, wit in results:
